@@ -416,6 +416,16 @@ func c24Run(e *enumCtx, nvk int, seq []string) (string, string) {
 			if err != nil {
 				return "backup-crash-reopen", fmt.Sprintf("%s: Open of the crash image taken right after Load: %v", name, err)
 			}
+			// the loaded content must survive the crash as well (Load had returned)
+			cgot, cs := c24Visible(cdb)
+			if cs != "" {
+				_ = cdb.Close()
+				return "backup-read-error", cs
+			}
+			if c24VisStr(cgot) != c24VisStr(want) {
+				_ = cdb.Close()
+				return "backup-crash-state", fmt.Sprintf("%s: after Load returned, a crash and a re-open the database shows {%s}, the source {%s}", name, c24VisStr(cgot), c24VisStr(want))
+			}
 			cerr := cdb.Update(func(txn *Txn) error { return txn.Set([]byte("a"), []byte("new")) })
 			cts := cdb.orc.nextTs() - 1
 			var cv string
@@ -444,6 +454,33 @@ func c24Run(e *enumCtx, nvk int, seq []string) (string, string) {
 	}
 	if c, d := check("full", [][]byte{full}, true); c != "" {
 		return c, d
+	}
+	// the same backup loaded into an InMemory database (values that lived in the source's value log
+	// arrive with the value-pointer bit set)
+	{
+		mo := c24Opts("", nvk)
+		mo.InMemory, mo.Dir, mo.ValueDir = true, "", ""
+		mo.ValueThreshold = 1 << 10
+		mdb, err := Open(mo)
+		if err != nil {
+			return "c24-open", err.Error()
+		}
+		lerr := mdb.Load(bytes.NewReader(full), 4)
+		var mgot map[string]c24Vis
+		var ms string
+		if lerr == nil {
+			mgot, ms = c24Visible(mdb)
+		}
+		_ = mdb.Close()
+		if lerr != nil {
+			return "backup-load-error", "Load into an InMemory database: " + lerr.Error()
+		}
+		if ms != "" {
+			return "backup-inmemory-state", "reading the InMemory database after Load: " + ms
+		}
+		if c24VisStr(mgot) != c24VisStr(want) {
+			return "backup-inmemory-state", fmt.Sprintf("full backup loaded into an InMemory database shows {%s}, the source {%s}", c24VisStr(mgot), c24VisStr(want))
+		}
 	}
 	if c, d := check("chain", chain, false); c != "" {
 		return c, d
